@@ -66,6 +66,9 @@ type Prim struct {
 type Ans struct {
 	Err   bool   `json:"err"`
 	Bytes string `json:"bytes"`
+	// err: what kind of failure the chain client reports ("" injected | canceled | deadline: the
+	// caller's context ended while the call was in flight, wrapped as the client wraps it)
+	ErrKind string `json:"err_kind,omitempty"`
 }
 type Event struct {
 	T      string `json:"t"` // handoff | decision | deadline | cancel
@@ -274,6 +277,12 @@ func run(in In) (obs Obs) {
 			return nil, vh.ErrInjected
 		}
 		if a.Err {
+			switch a.ErrKind {
+			case "canceled":
+				return nil, fmt.Errorf("failed to call contract: %w", context.Canceled)
+			case "deadline":
+				return nil, fmt.Errorf("failed to call contract: %w", context.DeadlineExceeded)
+			}
 			return nil, vh.ErrInjected
 		}
 		b, _ := hex.DecodeString(a.Bytes)
@@ -790,7 +799,9 @@ func main() {
 	yes := [2]Ans{{Bytes: word(big.NewInt(10))}, {Bytes: word(big.NewInt(20))}}
 	allowances := map[string][2]Ans{"yes": yes, "equal": {{Bytes: word(big.NewInt(10))}, {Bytes: word(big.NewInt(10))}},
 		"no": {{Bytes: word(big.NewInt(10))}, {Bytes: word(big.NewInt(9))}}, "call-error": {{Bytes: word(big.NewInt(10))}, {Err: true}},
-		"min-error": {{Err: true}, {Bytes: word(big.NewInt(20))}}, "malformed": {{Bytes: word(big.NewInt(10))}, {Bytes: word(big.NewInt(20))[:62]}}}
+		"min-error":     {{Err: true}, {Bytes: word(big.NewInt(20))}},
+		"call-canceled": {{Bytes: word(big.NewInt(10))}, {Err: true, ErrKind: "canceled"}}, "min-canceled": {{Err: true, ErrKind: "canceled"}, {Bytes: word(big.NewInt(20))}},
+		"call-deadline": {{Bytes: word(big.NewInt(10))}, {Err: true, ErrKind: "deadline"}}, "malformed": {{Bytes: word(big.NewInt(10))}, {Bytes: word(big.NewInt(20))[:62]}}}
 	goodHash := func() string {
 		h := hx(rng.Bytes(32))
 		if rng.Chance(25) { // the format rule admits both cases: some digits in upper case
@@ -987,7 +998,7 @@ func main() {
 	roles := []int{2, 1, 0, -1, 7}
 	bidClasses := []string{"valid", "valid-raw-v", "amount-leading-zero", "alias-octal", "alias-hex", "alias-underscore", "alias-binary", "tamper-amount", "tamper-block", "bad-digest", "bad-sig-short", "bad-sig-long", "bad-sig-s", "no-digest",
 		"fmt-hash", "fmt-hash-empty-entry", "fmt-amount-zero", "fmt-amount-2^64", "fmt-block", "fmt-start", "fmt-end"}
-	allows := []string{"yes", "equal", "no", "call-error", "min-error", "malformed"}
+	allows := []string{"yes", "equal", "no", "call-error", "min-error", "malformed", "call-canceled", "min-canceled", "call-deadline"}
 	scheds := map[string][]Event{
 		"accept":                accept,
 		"reject":                {H, D(true, 2)},
